@@ -8,7 +8,8 @@ import common, l3, jsonx
 from checks.c01 import _get_by_pos
 
 PID = "C05"
-EMAIL = re.compile(r"^[^@\s]+@[A-Za-z0-9]([A-Za-z0-9-]*[A-Za-z0-9])?(\.[A-Za-z0-9]([A-Za-z0-9-]*[A-Za-z0-9])?)+$")
+# "e-mail-shaped" = the WHATWG (HTML living standard) valid e-mail address syntax, with at least one dot in the domain
+EMAIL = re.compile(r"^[a-zA-Z0-9.!#$%&'*+/=?^_`{|}~-]+@[a-zA-Z0-9](?:[a-zA-Z0-9-]{0,61}[a-zA-Z0-9])?(?:\.[a-zA-Z0-9](?:[a-zA-Z0-9-]{0,61}[a-zA-Z0-9])?)+$")
 
 
 def valid_iso(s):
@@ -113,7 +114,7 @@ def run(tier):
     v = common.Verdict(PID, tier, "model_checking")
     b = common.build(need_inproc=False)
     cs = cfgs(tier)
-    rp = l3.Replay(b, v, cs, "checks.c05:judge", variants=2 if tier == "quick" else 3)
+    rp = l3.Replay(b, v, cs, "checks.c05:judge", variants=3 if tier == "quick" else 4, styles=l3.CLASH_STYLES, clash=True)
     cov = l3.EdgeCoverage(rp.sink)
     dump = l3.grammar_dump()
     all_edges = l3.grammar_edges(dump)
